@@ -2204,16 +2204,24 @@ class _GroupElem(ABC):
         coordinatesInImage = coordinates_n.dtype == int and testShape and nZ == 1
 
         if coordinatesInImage:
-            # here coordinates_n are pixels
+            # the fast path reads coordinates_n as the pixels of an image stored row after row from (0, 0):
+            # an integer lattice in any other order goes through the general path
+            pixels = np.arange(coordinates_n.shape[0])
+            coordinatesInImage = np.array_equal(
+                coordinates_n[:, 0], pixels % nX
+            ) and np.array_equal(coordinates_n[:, 1], pixels // nX)
+
+        if coordinatesInImage:
+            # here coordinates_n are pixels (the pixels on the far bounds of the element included)
 
             xe = np.arange(
                 np.floor(coordElem[:, 0].min()),
-                np.ceil(coordElem[:, 0].max()),
+                np.floor(coordElem[:, 0].max()) + 1,
                 dtype=int,
             )
             ye = np.arange(
                 np.floor(coordElem[:, 1].min()),
-                np.ceil(coordElem[:, 1].max()),
+                np.floor(coordElem[:, 1].max()) + 1,
                 dtype=int,
             )
             Xe, Ye = np.meshgrid(xe, ye)
